@@ -21,7 +21,9 @@ Colors == { << 255, 0, 0, 255 >>, << 64, 0, 32, 128 >>, << 0, 0, 0, 0 >>, << 1, 
 Bgs == { << 10, 20, 30, 255 >>, << 0, 0, 0, 0 >>, << 90, 0, 17, 91 >> }
 Cmds == {[k |-> "op", o |-> o, c |-> << >>] : o \in {Over, Src}} \cup {[k |-> "reset", o |-> "", c |-> << >>]}
         \cup {[k |-> "fill", o |-> "", c |-> c] : c \in Colors}
-Apply(st, c) == CASE c.k = "op" -> VSetOp(st, c.o) [] c.k = "reset" -> VResetOnly(st) [] OTHER -> VFill(st, c.c)
+        \cup {[k |-> "fillempty", o |-> "", c |-> << 255, 0, 0, 255 >>]}
+Apply(st, c) == CASE c.k = "op" -> VSetOp(st, c.o) [] c.k = "reset" -> VResetOnly(st)
+                  [] c.k = "fillempty" -> VFillEmpty(st, c.c) [] OTHER -> VFill(st, c.c)
 
 VARIABLES bg, s, hist, pend
 vars == << bg, s, hist, pend >>
@@ -30,12 +32,13 @@ Next == /\ Len(hist) < Depth
         /\ \E c \in Cmds :
              /\ s' = Apply(s, c)
              /\ hist' = Append(hist, [cmd |-> c, after |-> Apply(s, c)])
-             /\ pend' = CASE c.k = "op" -> c.o [] c.k = "fill" -> Over [] OTHER -> pend
+             /\ pend' = CASE c.k = "op" -> c.o [] c.k \in {"fill", "fillempty"} -> Over [] OTHER -> pend
         /\ UNCHANGED bg
 Spec == Init /\ [][Next]_vars
 
 Last == hist'[Len(hist')].cmd
-OneShot == [][Last.k = "fill" => s'.op = Over]_vars
+OneShot == [][Last.k \in {"fill", "fillempty"} => s'.op = Over]_vars
+EmptyDrawsNothing == [][Last.k = "fillempty" => s'.in = s.in /\ s'.ring = s.ring]_vars
 OpOfFill == [][Last.k = "fill" => s'.in = Px(pend, s.in, Last.c, TRUE) /\ s'.ring = Px(pend, s.ring, Last.c, FALSE)]_vars
 RingTells == [][Last.k = "fill" => s'.ring = (IF pend = Src THEN << 0, 0, 0, 0 >> ELSE s.ring)]_vars
 OutKept == s.out = bg
